@@ -2,5 +2,5 @@
 # runs every claimed property's quick check, prints one line each
 cd "$(dirname "$0")"
 for p in $(python3 -c "import json;print(' '.join(c['property_id'] for c in json.load(open('MANIFEST.json'))['checks']))"); do
-  s=$(date +%s); out=$(./check $p --tier ${1:-quick} 2>&1 | tail -1); echo "$p exit-line: $out"
+  out=$(./check $p --tier ${1:-quick} 2>&1 | grep "harnesses held" | tr "\n" " "); echo "$p exit-line: $out"
 done
